@@ -20,6 +20,8 @@ Definition empty_bitsets : list N := repeat 0 HORIZON_NUM_TINYBITSETS.
 (* shape of seek_danger as read from the source by tools/pindefs/docset.py *)
 Definition union_guard : bool := N.eqb UNION_DANGER_GUARDS_CURRENT_DOC 1.
 
+Definition union_resync : bool := N.eqb UNION_DANGER_RESYNCS_MISSED 1.
+
 Section Union.
   Variable C : impl.
 
@@ -178,7 +180,33 @@ Section Union.
       let '(hit, mn, ds) := children_danger t (u_docsets s) DOCSET_TERMINATED in
       let s1 := upd s ds (u_bitsets s) (u_bucket s) (u_w s) (u_doc s) (u_oof s) in
       if hit then (SdFound, u_seek t s1) else (SdLower mn, s1).
-  Definition u_seek_danger := u_seek_danger_g union_guard.
+  (* the shape after the fix of F134: in the hit branch the children that missed (the first num_missed ones) are
+     first re-synchronised on their own document when they sit at or after the target:
+       for docset in &mut self.docsets[..num_missed] { let doc = docset.doc(); if doc >= target { docset.seek(doc); } } *)
+  Fixpoint num_missed (t : N) (ds : list (st C)) : nat :=
+    match ds with
+    | [] => O
+    | c :: r => match fst (seek_danger C t c) with SdFound => O | SdLower _ => S (num_missed t r) end
+    end.
+  Definition resync1 (t : N) (c : st C) : st C := if N.leb t (doc C c) then seek C (doc C c) c else c.
+  Fixpoint resync_prefix (t : N) (n : nat) (ds : list (st C)) : list (st C) :=
+    match n, ds with
+    | S n', c :: r => resync1 t c :: resync_prefix t n' r
+    | _, _ => ds
+    end.
+  Definition u_seek_danger_r (guard : bool) (t : N) (s : ustate) : sd_result * ustate :=
+    if N.leb DOCSET_TERMINATED t then (SdLower DOCSET_TERMINATED, s)
+    else if guard && N.leb t (u_doc s) then
+      (if N.eqb t (u_doc s) then (SdFound, s) else (SdLower (u_doc s), s))
+    else if is_in_horizon t s then
+      let s' := u_seek t s in
+      if N.eqb (u_doc s') t then (SdFound, s') else (SdLower (u_doc s'), s')
+    else
+      let '(hit, mn, ds) := children_danger t (u_docsets s) DOCSET_TERMINATED in
+      if hit then
+        (SdFound, u_seek t (upd s (resync_prefix t (num_missed t (u_docsets s)) ds) (u_bitsets s) (u_bucket s) (u_w s) (u_doc s) (u_oof s)))
+      else (SdLower mn, upd s ds (u_bitsets s) (u_bucket s) (u_w s) (u_doc s) (u_oof s)).
+  Definition u_seek_danger := if union_resync then u_seek_danger_r union_guard else u_seek_danger_g union_guard.
 
   (* fn fill_buffer, as a tick machine: one tick = one pop_lowest or one bucket step or one refill *)
   Fixpoint fb_loop (fuel : nat) (buf : list N) (count : nat) (s : ustate) : list N * ustate :=
@@ -228,5 +256,11 @@ Section Union.
     fill_buffer := u_fill_buffer;
     fill_bitset := default_fill_bitset u_doc u_advance u_size u_set_oof u_seek;
     count := u_count; size := u_size; ok := u_ok |}.
-  Definition union_impl : impl := union_impl_g union_guard.
+  Definition union_impl_r (guard : bool) : impl := {|
+    st := ustate; doc := u_doc; advance := u_advance; seek := u_seek; seek_danger := u_seek_danger_r guard;
+    fill_buffer := u_fill_buffer;
+    fill_bitset := default_fill_bitset u_doc u_advance u_size u_set_oof u_seek;
+    count := u_count; size := u_size; ok := u_ok |}.
+  (* the shape read from the current source (tools/pindefs/docset.py) *)
+  Definition union_impl : impl := if union_resync then union_impl_r union_guard else union_impl_g union_guard.
 End Union.
